@@ -47,6 +47,11 @@ class Unsupported(Exception):
     pass
 
 
+# option-conditional branches appear as ONE static condition atom per option
+OPT_OVERRIDE = 'opt_override_capacity'
+ATOM_ALIASES = {'options.enable_override_variable_array_capacity': OPT_OVERRIDE}
+
+
 # ------------------------------------------------------------------------------------------------
 # tokenizer
 # ------------------------------------------------------------------------------------------------
@@ -158,7 +163,7 @@ def parse_cond(s: str):
         return ('not', parse_cond(s[4:]))
     if not s:
         raise Unsupported('empty condition')
-    return ('atom', s)
+    return ('atom', ATOM_ALIASES.get(s, s))
 
 
 # ------------------------------------------------------------------------------------------------
@@ -223,6 +228,9 @@ def classify_c(line: str) -> typing.Tuple[str, str]:
         filters = [f.strip() for f in m.group(3).split('|') if f.strip()]
         keep = [f for f in filters if f.split('(')[0] not in FILTERS_DROPPED]
         return 'KMacro', m.group(1) + '(' + m.group(2).strip() + ')' + ''.join('|' + f for f in keep)
+    # expression fragments: the body of a macro / block set that yields a value rather than statements
+    if re.match(r'^\{\{ [^}]* \}\}$', s) or (s.startswith('(') and s.endswith(')') and _balanced(s) and _outer_parens(s)):
+        return 'KExpr', s
     if s == '{':
         return 'KOpen', ''
     if s == '}':
@@ -527,6 +535,75 @@ def dispatch_table(macros, any_name: str, where: str):
 
 
 # ------------------------------------------------------------------------------------------------
+# projection on the default option set (opt_override_capacity = false): what Walker.v models
+# ------------------------------------------------------------------------------------------------
+
+def _mentions(c, atom: str) -> bool:
+    return c[1] == atom if c[0] == 'atom' else any(_mentions(x, atom) for x in c[1:])
+
+
+def _peval(c, atom: str):
+    """Kleene evaluation with `atom` = False, every other atom unknown"""
+    if c[0] == 'atom':
+        return False if c[1] == atom else None
+    if c[0] == 'not':
+        v = _peval(c[1], atom)
+        return None if v is None else (not v)
+    a, b = _peval(c[1], atom), _peval(c[2], atom)
+    if c[0] == 'and':
+        return False if (a is False or b is False) else (True if (a and b) else None)
+    return True if (a is True or b is True) else (False if (a is False and b is False) else None)
+
+
+def project_nodes(nodes, atom: str, drop_calls: typing.Set[str], inline: typing.Dict[str, typing.Tuple[str, str]], where: str):
+    out = []
+    for n in nodes:
+        if n[0] == 'if':
+            kept, els = [], n[2]
+            taken = None
+            for c, b in n[1]:
+                v = _peval(c, atom) if _mentions(c, atom) else None
+                if _mentions(c, atom) and v is None:
+                    raise Unsupported('%s: condition mixes %s in a way the default projection cannot decide' % (where, atom))
+                if v is False:
+                    continue
+                if v is True:
+                    taken = b
+                    break
+                kept.append((c, project_nodes(b, atom, drop_calls, inline, where)))
+            if taken is not None:
+                els = taken
+            els_p = project_nodes(els, atom, drop_calls, inline, where)
+            if kept:
+                out.append(('if', kept, els_p))
+            else:
+                out += els_p
+        elif n[0] == 'for':
+            out.append(('for', n[1], project_nodes(n[2], atom, drop_calls, inline, where)))
+        elif n[0] == 'act':
+            if n[1] == 'KMacro' and n[2].split('(')[0] in drop_calls:
+                continue
+            payload = n[2]
+            for name, (params, expr) in inline.items():
+                payload = payload.replace('{{ %s(%s) }}' % (name, params), expr)
+                if '{{ %s(' % name in payload:
+                    raise Unsupported('%s: call of %s with arguments other than its parameter names' % (where, name))
+            out.append((n[0], n[1], payload))
+        else:
+            out.append(n)
+    return out
+
+
+def project_default(macros, where: str):
+    """macro table under opt_override_capacity = false: macros that then emit nothing are dropped together with their calls,
+    macros that reduce to one expression are inlined at their call sites (only when called with their own parameter names)"""
+    first = [(n, a, project_nodes(b, OPT_OVERRIDE, set(), {}, where)) for n, a, b in macros]
+    drop = {n for n, a, b in first if not b}
+    inline = {n: (a, b[0][2]) for n, a, b in first if len(b) == 1 and b[0][0] == 'act' and b[0][1] == 'KExpr'}
+    return [(n, a, project_nodes(b, OPT_OVERRIDE, drop, inline, where)) for n, a, b in macros if n not in drop and n not in inline]
+
+
+# ------------------------------------------------------------------------------------------------
 # Coq output
 # ------------------------------------------------------------------------------------------------
 
@@ -578,6 +655,10 @@ def render(prefix: str, base_import: bool = True) -> typing.Tuple[str, typing.Li
                 prefix, tgt, dname, ';\n   '.join('(%s, [%s])' % (q(c), '; '.join(q(x) for x in ms)) for c, ms in table)))
             parts.append('Definition %s%s_%s_macros : list (string * string * list tnode) :=\n  [%s].\n' % (
                 prefix, tgt, dname, ';\n\n   '.join('(%s, %s,\n    %s)' % (q(n), q(a), coq_nodes(b, 4)) for n, a, b in macros)))
+            if tgt == 'c':
+                dflt = project_default(macros, rel)
+                parts.append('Definition %s%s_%s_macros_default : list (string * string * list tnode) :=\n  [%s].\n' % (
+                    prefix, tgt, dname, ';\n\n   '.join('(%s, %s,\n    %s)' % (q(n), q(a), coq_nodes(b, 4)) for n, a, b in dflt)))
             msgs.append('%s/%s: %d macros, %d dispatch entries' % (tgt, dname, len(macros), len(table)))
     return '\n'.join(parts), msgs
 
@@ -603,7 +684,12 @@ def emit_expected() -> int:
             '   counterpart of what tools/translators/gen_codec_tpl.py regenerates from the templates on every run\n'
             '   (Generated/Gen_CodecTpl.v); Codec/TplTie.v proves the two equal, so any edit of a template branch breaks an\n'
             '   obligation of C01/C02.  Refresh deliberately with\n'
-            '   `python -m tools.translators.gen_codec_tpl --emit-expected` after reviewing a template change against Walker.v. *)\n'
+            '   `python -m tools.translators.gen_codec_tpl --emit-expected` after reviewing a template change against Walker.v.\n'
+            '   REVIEW CRITERION for option-only template fixes (e.g. 2e84c7a, enable_override_variable_array_capacity): the\n'
+            '   `walker_c_*_macros_default` tables (= the projection on opt_override_capacity = false, which is what Walker.v\n'
+            '   models; guard / storage-capacity helper macros dropped or inlined) must stay byte-identical to the previously\n'
+            '   reviewed tables, i.e. the full tables may differ from them ONLY under the static atom `opt_override_capacity`;\n'
+            '   the C++ / Python tables must not change at all.  `--review` checks exactly this against `git show HEAD:`. *)\n'
             + IMPORTS + body)
     gen.write_if_changed(EXPECTED, text)
     print('\n'.join(msgs))
@@ -612,7 +698,31 @@ def emit_expected() -> int:
 
 GENERATORS = {'codec_tpl': gen_codec_tpl}
 
+def review() -> int:
+    """regenerated tables vs. the committed reviewed tables: everything outside `opt_override_capacity` must be identical"""
+    import subprocess
+    old = subprocess.run(['git', '-C', gen.VERIF, 'show', 'HEAD:coq/theories/Codec/TplTieData.v'], stdout=subprocess.PIPE, text=True).stdout
+    new, _ = render('walker_')
+
+    def defs(text):
+        return {m.group(1): m.group(2) for m in re.finditer(r'Definition walker_(\w+) :[^\n]*:=\n(.*?)\]\.\n(?=\nDefinition|\Z)', text + '\n', re.S)}
+    o, n = defs(old), defs(new)
+    rc = 0
+    for k in sorted(o):
+        ref = k + '_default' if (k + '_default' in n and k + '_default' not in o) else k
+        a = o[k].replace('options.enable_override_variable_array_capacity', OPT_OVERRIDE)
+        same = a == n.get(ref)
+        if not same and ref != k:
+            # the old table may itself contain branches under the option atom: compare its own default projection instead
+            same = None
+        print('%-24s %s' % (k, 'identical' if same else 'DIFFERS (inspect with diff)' if same is False else 'compare default projections by hand'))
+        rc |= 0 if same else 1
+    return rc
+
+
 if __name__ == '__main__':
+    if '--review' in sys.argv:
+        sys.exit(review())
     if '--emit-expected' in sys.argv:
         sys.exit(emit_expected())
     ok_, msg_ = gen_codec_tpl()
